@@ -133,7 +133,12 @@ LATIN1 = st.characters(min_codepoint=0, max_codepoint=255)
 
 
 def latin1_text(lengths):
-    return lengths.flatmap(lambda n: st.text(LATIN1, min_size=n, max_size=n))
+    """exact-length ISO-8859-1 text; long strings are a short drawn chunk repeated (Hypothesis cannot draw 64 KiB)"""
+    def of(n):
+        if n <= 300:
+            return st.text(LATIN1, min_size=n, max_size=n)
+        return st.text(LATIN1, min_size=1, max_size=24).map(lambda c: (c * (n // len(c) + 1))[:n])
+    return lengths.flatmap(of)
 
 
 def sstring_len():
@@ -176,8 +181,10 @@ def typed(draw, allow_struct=True, max_bytes=440):
         n = min(n, 4)
     vals = draw(st.lists(value_of(t), min_size=n, max_size=n))
     out = {'type': t, 'values': vals}
-    while len(out['values']) > 1 and len(rf.enc_typed(out)) > max(max_bytes, 70000 if BIG['on'] else 0):
+    while len(out['values']) > 1 and len(rf.enc_typed(out)) > max_bytes:
         out['values'] = out['values'][:len(out['values']) // 2]
+    if t in ('STRING', 'SSTRING') and len(rf.enc_typed(out)) > max_bytes:
+        out['values'] = [out['values'][0][:max(0, max_bytes - 4)]]
     return out
 
 
@@ -435,9 +442,9 @@ def mr_forward_ambiguous(draw):
     return m
 
 
-def mr_any(dirs=('req', 'rpy'), parse_only=False):
-    return st.one_of(mr_simple(dirs, parse_only), mr_simple(dirs, parse_only), mr_multiple(dirs, parse_only),
-                     mr_forward_canonical(dirs))
+def mr_any(dirs=('req', 'rpy'), parse_only=False, max_bytes=440):
+    return st.one_of(mr_simple(dirs, parse_only, max_bytes=max_bytes), mr_simple(dirs, parse_only, max_bytes=max_bytes),
+                     mr_multiple(dirs, parse_only), mr_forward_canonical(dirs))
 
 
 def mr_logix(dirs=('req', 'rpy'), parse_only=False):
@@ -580,7 +587,7 @@ def status_case(draw, parse_only=False):
 def typed_case(draw, parse_only=False):
     if parse_only and draw(st.booleans()):
         return {'type': 'BOOL', 'values': [], '_boolbytes': draw(st.binary(min_size=1, max_size=8)).hex()}
-    return draw(typed(max_bytes=2000))
+    return draw(typed(max_bytes=70000 if BIG['on'] else 2000))
 
 
 def iface_case():
@@ -596,7 +603,7 @@ def case_strategy(group, parse_only=False):
                          with_opts('status', 'p', status_case(po)), with_opts('typed', 'p', typed_case(po)),
                          with_opts('typed', 'p', typed_case(po)))
     if group == 'service':
-        return with_opts('mr', 'p', mr_any(('req', 'rpy'), po).filter(ok_top_mr))
+        return with_opts('mr', 'p', mr_any(('req', 'rpy'), po, max_bytes=66000 if BIG['on'] else 440).filter(ok_top_mr))
     if group == 'frame':
         return st.one_of(with_opts('wrapper', 'p', wrapper(po)), with_opts('cpf', 'p', cpf_items(po).map(lambda i: {'items': i})),
                          with_opts('frame', 'p', frame(po)), with_opts('frame', 'p', frame(po)))
@@ -674,7 +681,9 @@ def mr_features(m, out):
     if m['dir'] == 'rpy':
         n = len(m.get('ext') or ())
         out.add('ext:%s' % ('0' if n == 0 else '>=1'))
-        out.add('status:%s' % ('ok' if m['status'] in (0, 6, 0x1E) and (m['status'] == 0 or m['svc'] in ('read_tag', 'read_frag', 'multiple')) else 'fail'))
+        ok = m['status'] == 0 or (m['status'] == 6 and m['svc'] in ('read_tag', 'read_frag')) or \
+            (m['status'] == 0x1E and m['svc'] == 'multiple')
+        out.add('status:%s' % ('ok' if ok else 'fail'))
     if isinstance(m.get('data'), dict):
         typed_features(m['data'], out)
     if 'members' in m:
